@@ -19,13 +19,36 @@ def avail_frames(regions):
     return sum((lambda w: (w[1] - w[0] + 1) if w else 0)(whole_frames(a, l)) for a, l, t in regions if t == 1)
 
 
-def gen_map(rng, max_frames=600):
+GIB4 = 1 << 32
+
+
+def pick_base(rng):
+    """start address of a map: low memory, or around / above 4 GiB, 1 TiB, 16 TiB (frame numbers >= 2^32):
+    the places where 32-bit masks / truncations of addresses and frame numbers show"""
+    r = rng.random()
+    if r < 0.62:
+        return rng.choice([0, 0, 0, PAGE, rng.randrange(0, 64) * PAGE, rng.randrange(0, 1 << 20), rng.randrange(0, 1 << 34)])
+    return rng.choice([
+        GIB4, GIB4 + PAGE, GIB4 + rng.randrange(0, 1 << 20), GIB4 + rng.randrange(0, 1 << 30),
+        GIB4 - rng.randrange(1, 400) * PAGE, GIB4 - rng.randrange(1, 1 << 20),        # regions straddling 4 GiB
+        2 * GIB4 - rng.randrange(0, 64) * PAGE, 3 * GIB4 + 0x123000,
+        1 << 40, (1 << 40) - rng.randrange(0, 200) * PAGE, (1 << 40) + rng.randrange(0, 1 << 30),
+        1 << 44, (1 << 44) - rng.randrange(0, 200) * PAGE, (1 << 44) + rng.randrange(0, 1 << 36),   # frame numbers >= 2^32
+        (1 << 48) + rng.randrange(0, 1 << 20) * PAGE, (1 << 51) + rng.randrange(0, 1 << 12) * PAGE,
+        rng.randrange(0, 1 << 52)])
+
+
+def gen_map(rng, max_frames=600, base=None, must_have=None):
+    """must_have: frame count that one (random) available region gets at least"""
     nreg = rng.randint(1, 6)
-    addr = rng.choice([0, 0, 0, PAGE, rng.randrange(0, 64) * PAGE, rng.randrange(0, 1 << 20), rng.randrange(0, 1 << 34)])
+    addr = pick_base(rng) if base is None else base
+    forced = rng.randrange(nreg) if must_have else -1
     regions = []
-    for _ in range(nreg):
+    for idx in range(nreg):
         typ = 1 if rng.random() < 0.68 else rng.choice(OTHER_TYPES + [rng.randrange(0, 1 << 32)])
         frames = rng.choice(FRAME_SIZES + [rng.randrange(0, max_frames + 1)] * 3)
+        if idx == forced:
+            typ, frames = 1, max(frames, must_have + rng.randrange(0, 200))
         if rng.random() < 0.5:                      # page aligned
             start = (addr + PAGE - 1) // PAGE * PAGE
             length = frames * PAGE
@@ -94,6 +117,64 @@ def place_kernel(rng, regions):
     return ks, ke, 'in:' + how
 
 
+def place_kernel_wordspan(rng, regions):
+    """kernel image of 65..200 frames (two or more bitmap words) whose first and last frame sit at chosen
+    offsets (0, 1, 62, 63, random) modulo 64 relative to the first whole frame of its region"""
+    cands = []
+    for a, l, t in regions:
+        w = whole_frames(a, l)
+        if t == 1 and w and w[1] - w[0] + 1 >= 70:
+            cands.append((a, l, w))
+    if not cands:
+        return None
+    a, l, (first, last) = rng.choice(cands)
+    n = last - first + 1
+    off = lambda: rng.choice([0, 0, 1, 62, 63, 63, rng.randrange(0, 64)])
+    for _ in range(20):
+        sa, eb = off(), off()
+        length = rng.randint(65, min(200, n))
+        srel = sa + 64 * rng.randrange(0, max(1, (n - length) // 64 + 1))
+        length += (eb - (srel + length - 1)) % 64          # move the last frame to offset eb
+        if srel + length <= n and length >= 65:
+            ks = (first + srel) * PAGE
+            ke = (first + srel + length) * PAGE - rng.choice([0, 0, 1, rng.randrange(0, PAGE)])
+            return ks, min(ke, a + l), 'in:wordspan'
+    return None
+
+
+def gen_boundary_map(rng):
+    """2-6 pools whose allocator state (72 bytes per pool + 8 bytes per 64 frames, each pool rounded up to a
+    word) ends within a few words of a page boundary (1, 2 or 3 pages), tiny first pools included; interleaved
+    with non-available regions; any base address"""
+    npools = rng.randint(2, 6)
+    pages = rng.choice([1, 1, 2, 2, 3])
+    delta = 8 * rng.choice(list(range(-3, npools + 3)))
+    small = [rng.choice([1, 1, 1, 2, 3, 63, 64, 65, 127, 128, 129, rng.randrange(1, 300)]) for _ in range(npools - 1)]
+    words_small = sum((f + 63) // 64 for f in small)
+    w = (pages * PAGE + delta - 72 * npools) // 8 - words_small
+    big = 64 * w - rng.choice([0, 0, 1, 63, rng.randrange(0, 64)])
+    sizes = list(small)
+    sizes.insert(rng.choice([len(small), len(small), rng.randrange(0, npools)]), big)
+    addr = pick_base(rng)
+    regions = []
+    for f in sizes:
+        if rng.random() < 0.35:                               # a non-available region in between
+            ln = rng.choice([0, 1, PAGE, rng.randrange(0, 1 << 20)])
+            regions.append((addr, ln, rng.choice(OTHER_TYPES)))
+            addr += ln
+        if rng.random() < 0.5:
+            start = (addr + PAGE - 1) // PAGE * PAGE
+            length = f * PAGE
+        else:                                                 # unaligned at both ends, exactly f whole frames
+            base = (addr + PAGE - 1) // PAGE * PAGE
+            offs = rng.randrange(1, PAGE)
+            start = base + offs
+            length = (PAGE - offs) + f * PAGE + rng.randrange(0, PAGE)
+        regions.append((start, length, 1))
+        addr = start + length + rng.choice([0, 0, 1, rng.randrange(0, PAGE), rng.randrange(0, 40) * PAGE])
+    return regions
+
+
 def mangle_map(rng, regions):
     """maps outside the quantifier (unsorted / overlapping / wrapping): agreement only"""
     regions = list(regions)
@@ -150,8 +231,18 @@ def gen_ops(rng, usable, regions, style=None):
     allf = [whole_frames(a, l) for a, l, t in regions if t == 1]
     allf = [w for w in allf if w]
 
+    M64 = (1 << 64) - 1
+
     def some_frame():
         r = rng.random()
+        if allf and r < 0.3:
+            # a frame number that aliases a managed frame modulo 2^8..2^52, or its byte address
+            lo, hi = rng.choice(allf)
+            f = rng.choice([lo, hi, rng.randrange(lo, hi + 1)])
+            k = rng.choice([1, 1, 2, rng.randrange(1, 1 << 12)])
+            b = rng.choice([16, 32, 32, 32, 8, 24, 40, 48, 52, 63])
+            return rng.choice([(f + (k << b)) & M64, (f - (k << b)) & M64, f ^ (1 << b), f | (0xffffffff << 32),
+                               (f << 12) & M64, f & 0xffffffff, f & 0xffff, f + (1 << 32), f + (1 << 16)])
         if allf and r < 0.6:
             lo, hi = rng.choice(allf)
             return rng.choice([lo, hi, rng.randrange(lo, hi + 1), hi + 1, max(lo, 1) - 1])
@@ -199,7 +290,38 @@ def gen_ops(rng, usable, regions, style=None):
     return ops, style
 
 
-def gen_pmm_case(rng, sel, tier_max_frames=600):
+def gen_ops_big(rng, regions, full_drain=False):
+    """histories for maps of tens of thousands of frames: a few allocations first (they reach the frames right
+    after the early-boot ones), then bounded churn / bad frees; a full drain only when asked for"""
+    ops = [0] * rng.choice([1, 2, 5, 20, 70])
+    if full_drain:
+        return ops + [0] * (avail_frames(regions) + 1), 'big-drain'
+    more, _ = gen_ops(rng, 60, regions, rng.choice(['churn', 'badfree', 'free-heavy', 'alloc-heavy']))
+    cut, i = [], 0                     # at most ~150 further ops, cut at an op boundary
+    while i < len(more) and len(cut) < 300:
+        k = 1 if more[i] == 0 else 2
+        cut += more[i:i + k]
+        i += k
+    return ops + cut, 'big'
+
+
+def gen_pmm_case(rng, sel, tier_max_frames=600, big_drain=0.0):
+    scen = rng.random()
+    if scen < 0.10:
+        # allocator state of 1-3 pages ending next to a page boundary
+        regions = gen_boundary_map(rng)
+        ks, ke, how = place_kernel(rng, regions)
+        ops, style = gen_ops_big(rng, regions, rng.random() < big_drain)
+        return [sel] + enc_map(regions) + [ks, ke, RESERVE_LIMIT, 0] + ops, 'boundary:' + how + '/' + style
+    if scen < 0.24:
+        # kernel image over several bitmap words, every first/last offset modulo 64
+        regions = gen_map(rng, tier_max_frames, must_have=140)
+        kp = place_kernel_wordspan(rng, regions)
+        if kp:
+            ks, ke, how = kp
+            usable = avail_frames(regions)
+            ops, style = gen_ops(rng, min(usable, 5000), regions, rng.choice(['drain', 'drain', 'redrain', 'alloc-heavy', 'churn']))
+            return [sel] + enc_map(regions) + [ks, ke, RESERVE_LIMIT, 0] + ops, how + '/' + style
     regions = gen_map(rng, tier_max_frames)
     ks, ke, how = place_kernel(rng, regions)
     note = how
